@@ -55,9 +55,9 @@ SuiteInit ==
 PostOK(p) == env'[M] = EnvOf(p) /\ pos' = PosOf(p)
 
 SxPlace == /\ T.op = "place"
-           /\ \/ T.out = "ok" /\ Join(ArgObj(T), ConvP(T.pre, T.args.p), "mech")
-              \/ T.out = "DuplicateAgentError" /\ JoinRejectedDup(ArgObj(T))
-              \/ T.out = "Exception" /\ JoinRejectedOOB(ArgObj(T), ConvP(T.pre, T.args.p))
+           /\ \/ T.out = "ok" /\ Join(ArgObj(T), M, ConvP(T.pre, T.args.p), "mech")
+              \/ T.out = "DuplicateAgentError" /\ JoinRejectedDup(ArgObj(T), M)
+              \/ T.out = "Exception" /\ JoinRejectedOOB(ArgObj(T), M, ConvP(T.pre, T.args.p))
 SxMove  == /\ T.op = "move"
            /\ \/ /\ T.out = "ok" /\ ArgObj(T) \in DOMAIN pos
                  /\ Move(ArgObj(T), ConvP(T.pre, T.args.d), PosOf(T.post)[ArgObj(T)])
